@@ -3,6 +3,7 @@ import N0Verif.Proofs.XPathHistory
 import N0Verif.Proofs.XPathCreate2
 import N0Verif.Proofs.XPathPureApi
 import N0Verif.Proofs.XPathHidden
+import N0Verif.Proofs.XPathHiddenCreate
 /-!
 # C03 — assigning to a missing xpath creates exactly the missing chain; `new()` appends
 
@@ -498,6 +499,170 @@ example : setItem 40 exTree2 ['/', '/', 'a', '/', 'k', '[', 'l', 'a', 's', 't', 
 example : setItem 40 exTree2 ['/', '/', 'a', '/', 'k', '[', '-', '2', ']', '/', 'x'] (.int 5) = (exTree2, .error .SyntaxError) :=
   (C03_index_on_single_value .n0 _ [.key ['a']] .n0 _ ['k'] (.str ['s']) (.neg 2) [['x']] (.int 5) 40 ⟨pk_a, trivial⟩ rfl pk_k
     (by decide) rfl (by intro m hm; simp at hm; subst hm; exact pk_x) (by decide)).2.2 (Or.inr (by decide))
+
+/-! ## 5c. further hidden-list spellings of creation (fix C03-e): the index as a step of its own, a hidden index in the
+middle of a creation path, the refusal for an element of a list -/
+
+/-- **C03 (index `1` as a step of its own).**  `old`, the value of `name` in the dict at `q`, is not a list; `e` is any
+spelling of `1`.  `//…q…/name/[e]/tail…` wraps `old` as the first element and appends exactly one element
+(`chain tail v`) — the same tree `//…q…/name[e]/tail…` makes (`C03_index_on_single_value`, case 2). -/
+theorem C03_index_own_step (cls : Cls) (kvs : List (Str × Val)) (q : Pos) (kcls : Cls) (nkvs : List (Str × Val))
+    (name : Str) (old : Val) (e : IdxSp) (tail : List Str) (v : Val) (fuel : Nat)
+    (hp : PlainPos q) (hget : getAt (.dict cls kvs) q = some (.dict kcls nkvs)) (hn : PlainKey name)
+    (hl : lookup name nkvs = some old) (hs : isList old = false) (he : e.val = 1) (ht : ∀ x ∈ tail, PlainKey x)
+    (hf : fuel ≥ 2 * q.length + 3) :
+    ∀ t', setAt (.dict cls kvs) (q ++ [.key name]) (.list .n0 [old, chain tail v]) = some t' →
+      setItem fuel (.dict cls kvs)
+        (slash ++ renderPos (q ++ [.key name]) ++ slash ++ bracket e.text ++ renderPos (tail.map Seg.key)) v = (t', .ok ()) ∧
+      setItem fuel (.dict cls kvs)
+        (slash ++ renderPos q ++ slash ++ (name ++ bracket e.text) ++ renderPos (tail.map Seg.key)) v = (t', .ok ()) :=
+  fun t' hset =>
+    ⟨setItem_hidden_wrap_own_step cls kvs q kcls nkvs name old e tail v t' fuel hp hget hn hl hs he ht hset hf,
+     setItem_hidden_wrap cls kvs q kcls nkvs name old e tail v t' fuel hp hget hn hl hs he ht hset (by omega)⟩
+
+/-- **C03 (hidden index in the middle of a creation path).**  `name` holds a dict in which `n` is fresh; `e` is any
+spelling of `0` / `-1`.  `//…q…/name[e]/n/ns…` creates exactly the chain `{n: {ns…: v}}` below `name` — the tree the
+canonical path `//…q…/name/n/ns…` creates (`C03_create_names`). -/
+theorem C03_create_hidden_middle (cls : Cls) (kvs : List (Str × Val)) (q : Pos) (kcls : Cls) (nkvs : List (Str × Val))
+    (name : Str) (ocls : Cls) (okvs : List (Str × Val)) (e : IdxSp) (n : Str) (ns : List Str) (v : Val) (fuel : Nat)
+    (hp : PlainPos q) (hget : getAt (.dict cls kvs) q = some (.dict kcls nkvs)) (hn : PlainKey name)
+    (hl : lookup name nkvs = some (.dict ocls okvs)) (he : e.val = 0 ∨ e.val = -1)
+    (hfresh : lookup n okvs = Option.none) (hnn : PlainKey n) (hns : ∀ m ∈ ns, PlainKey m)
+    (hf : fuel ≥ 2 * q.length + 4) :
+    ∀ t', setAt (.dict cls kvs) (q ++ [.key name] ++ [.key n]) (chain ns v) = some t' →
+      setItem fuel (.dict cls kvs)
+        (slash ++ renderPos q ++ slash ++ (name ++ bracket e.text) ++ renderPos ((n :: ns).map Seg.key)) v = (t', .ok ()) ∧
+      setItem fuel (.dict cls kvs) (slash ++ renderPos (q ++ [.key name] ++ (n :: ns).map Seg.key)) v = (t', .ok ()) :=
+  fun t' hset =>
+    ⟨setItem_hidden_create_middle cls kvs q kcls nkvs name ocls okvs e n ns v t' fuel hp hget hn hl he hfresh hnn hns hset hf,
+     setItem_create_below cls kvs q kcls nkvs name ocls okvs n ns v t' fuel hp hget hn hl hfresh hnn hns hset hf⟩
+
+/-- **C03 (index on a single value that is an element of a list: refused).**  `old`, element `i` of a list, is not a
+list; `e` denotes anything but `0` / `-1` (also `1`: no key could hold the new list).  `//…q0…[i][e]/tail…` and
+`//…q0…[i]/[e]/tail…` raise `SyntaxError` and the tree is the tree before the call. -/
+theorem C03_hidden_elem_refused (cls : Cls) (kvs : List (Str × Val)) (q0 : Pos) (i : Nat) (old : Val) (e : IdxSp)
+    (tail : List Str) (v : Val) (fuel : Nat)
+    (hp : PlainPos (q0 ++ [Seg.idx i])) (hP : getAt (.dict cls kvs) (q0 ++ [Seg.idx i]) = some old)
+    (hs : isList old = false) (he : e.val ≥ 1 ∨ e.val < -1) (ht : ∀ x ∈ tail, PlainKey x)
+    (hf : fuel ≥ 2 * (q0.length + 1) + 1) :
+    setItem fuel (.dict cls kvs)
+      (slash ++ renderPos (q0 ++ [Seg.idx i]) ++ bracket e.text ++ renderPos (tail.map Seg.key)) v
+      = (.dict cls kvs, .error .SyntaxError) ∧
+    setItem fuel (.dict cls kvs)
+      (slash ++ renderPos (q0 ++ [Seg.idx i]) ++ slash ++ bracket e.text ++ renderPos (tail.map Seg.key)) v
+      = (.dict cls kvs, .error .SyntaxError) :=
+  ⟨setItem_hidden_elem_refuse cls kvs q0 i old e tail v fuel hp hP hs he ht hf,
+   setItem_hidden_elem_refuse_own cls kvs q0 i old e tail v fuel hp hP hs he ht hf⟩
+
+/-- a dict `o` and a list `l` with a single value as element 1, under `a` -/
+def exTreeH : Val :=
+  .dict .n0 [(['a'], .dict .n0 [(['o'], .dict .n0 [(['p'], .int 1)]), (['l'], .list .n0 [.int 5, .str ['s']])])]
+
+/-- `d['//a/k/[0+1]/x'] = 5` on `exTree2`: `k` becomes `['s', {x: 5}]` -/
+example : setItem 40 exTree2 ['/', '/', 'a', '/', 'k', '/', '[', '0', '+', '1', ']', '/', 'x'] (.int 5)
+    = (.dict .n0 [(['a'], .dict .n0 [(['l'], .list .n0 [.int 1]),
+        (['k'], .list .n0 [.str ['s'], .dict .n0 [(['x'], .int 5)]])])], .ok ()) :=
+  (C03_index_own_step .n0 _ [.key ['a']] .n0 _ ['k'] (.str ['s']) (.plus 0 1) [['x']] (.int 5) 40 ⟨pk_a, trivial⟩ rfl pk_k
+    (by decide) rfl (by decide) (by intro m hm; simp at hm; subst hm; exact pk_x) (by decide) _ (by decide)).1
+/-- `d['//a/o[last()]/n/m'] = 5` on `exTreeH`: `{n: {m: 5}}` appears in `o`, as for `//a/o/n/m` -/
+example : setItem 40 exTreeH ['/', '/', 'a', '/', 'o', '[', 'l', 'a', 's', 't', '(', ')', ']', '/', 'n', '/', 'm'] (.int 5)
+    = (.dict .n0 [(['a'], .dict .n0 [(['o'], .dict .n0 [(['p'], .int 1), (['n'], .dict .n0 [(['m'], .int 5)])]),
+        (['l'], .list .n0 [.int 5, .str ['s']])])], .ok ()) :=
+  (C03_create_hidden_middle .n0 _ [.key ['a']] .n0 _ ['o'] .n0 [(['p'], .int 1)] .last ['n'] [['m']] (.int 5) 40 ⟨pk_a, trivial⟩ rfl
+    (⟨by simp, by decide, by simp⟩ : PlainKey ['o']) (by decide) (Or.inr rfl) (by decide) pk_n
+    (by intro m hm; simp at hm; subst hm; exact pk_m) (by decide) _ (by decide)).1
+/-- `d['//a/l[1][1]/x'] = 5` on `exTreeH` (`l[1]` is the single value `'s'`): refused, nothing changes -/
+example : setItem 40 exTreeH ['/', '/', 'a', '/', 'l', '[', '1', ']', '[', '1', ']', '/', 'x'] (.int 5)
+    = (exTreeH, .error .SyntaxError) :=
+  (C03_hidden_elem_refused .n0 _ [.key ['a'], .key ['l']] 1 (.str ['s']) (.lit 1) [['x']] (.int 5) 40
+    ⟨pk_a, pk_l, trivial⟩ (by decide) rfl (Or.inl (by decide))
+    (by intro m hm; simp at hm; subst hm; exact pk_x) (by decide)).1
+
+/-- **C03 (hidden index as a step of its own in the middle of a creation path).**  The node at the plain position `P`
+(the value of a key, an element of a list, or — `P = []` — the root) is a dict in which `n` is fresh; `e` is any spelling
+of `0` / `-1`.  `//…P…/[e]/n/ns…` creates exactly the chain `{n: {ns…: v}}` in that dict. -/
+theorem C03_create_hidden_middle_own (cls : Cls) (kvs : List (Str × Val)) (P : Pos) (ocls : Cls)
+    (okvs : List (Str × Val)) (e : IdxSp) (n : Str) (ns : List Str) (v : Val) (fuel : Nat)
+    (hp : PlainPos P) (hP : getAt (.dict cls kvs) P = some (.dict ocls okvs)) (he : e.val = 0 ∨ e.val = -1)
+    (hfresh : lookup n okvs = Option.none) (hnn : PlainKey n) (hns : ∀ m ∈ ns, PlainKey m)
+    (hf : fuel ≥ 2 * P.length + 2) :
+    ∀ t', setAt (.dict cls kvs) (P ++ [.key n]) (chain ns v) = some t' →
+      setItem fuel (.dict cls kvs) (slash ++ renderPos P ++ slash ++ bracket e.text ++ renderPos ((n :: ns).map Seg.key)) v
+        = (t', .ok ()) :=
+  fun t' hset => setItem_hidden_create_middle_own cls kvs P ocls okvs e n ns v t' fuel hp hP he hfresh hnn hns hset hf
+
+/-- **C03 (hidden index on a list element in the middle of a creation path).**  Element `i` of a list is a dict in which
+`n` is fresh: `//…q0…[i][e]/n/ns…` creates exactly the chain `{n: {ns…: v}}` in that dict. -/
+theorem C03_create_hidden_middle_elem (cls : Cls) (kvs : List (Str × Val)) (q0 : Pos) (i : Nat) (ocls : Cls)
+    (okvs : List (Str × Val)) (e : IdxSp) (n : Str) (ns : List Str) (v : Val) (fuel : Nat)
+    (hp : PlainPos (q0 ++ [Seg.idx i])) (hP : getAt (.dict cls kvs) (q0 ++ [Seg.idx i]) = some (.dict ocls okvs))
+    (he : e.val = 0 ∨ e.val = -1)
+    (hfresh : lookup n okvs = Option.none) (hnn : PlainKey n) (hns : ∀ m ∈ ns, PlainKey m)
+    (hf : fuel ≥ 2 * (q0.length + 1) + 2) :
+    ∀ t', setAt (.dict cls kvs) (q0 ++ [Seg.idx i] ++ [.key n]) (chain ns v) = some t' →
+      setItem fuel (.dict cls kvs)
+        (slash ++ renderPos (q0 ++ [Seg.idx i]) ++ bracket e.text ++ renderPos ((n :: ns).map Seg.key)) v = (t', .ok ()) :=
+  fun t' hset =>
+    setItem_hidden_create_middle_elem cls kvs q0 i ocls okvs e n ns v t' fuel hp hP he hfresh hnn hns hset hf
+
+/-- a list `l` whose element 1 is a dict, under `a` -/
+def exTreeH2 : Val :=
+  .dict .n0 [(['a'], .dict .n0 [(['l'], .list .n0 [.int 5, .dict .n0 [(['x'], .int 1)]])])]
+
+/-- `d['//a/o/[0]/n/m'] = 5` on `exTreeH` -/
+example : setItem 40 exTreeH ['/', '/', 'a', '/', 'o', '/', '[', '0', ']', '/', 'n', '/', 'm'] (.int 5)
+    = (.dict .n0 [(['a'], .dict .n0 [(['o'], .dict .n0 [(['p'], .int 1), (['n'], .dict .n0 [(['m'], .int 5)])]),
+        (['l'], .list .n0 [.int 5, .str ['s']])])], .ok ()) :=
+  C03_create_hidden_middle_own .n0 _ [.key ['a'], .key ['o']] .n0 [(['p'], .int 1)] (.lit 0) ['n'] [['m']] (.int 5) 40
+    ⟨pk_a, (⟨by simp, by decide, by simp⟩ : PlainKey ['o']), trivial⟩ rfl (Or.inl rfl) (by decide) pk_n
+    (by intro m hm; simp at hm; subst hm; exact pk_m) (by decide) _ (by decide)
+/-- `d['//[last()]/n'] = 5` on `exTreeH` (`P = []`: the root read as the list of this one item) -/
+example : setItem 40 exTreeH ['/', '/', '[', 'l', 'a', 's', 't', '(', ')', ']', '/', 'n'] (.int 5)
+    = (.dict .n0 [(['a'], .dict .n0 [(['o'], .dict .n0 [(['p'], .int 1)]), (['l'], .list .n0 [.int 5, .str ['s']])]),
+        (['n'], .int 5)], .ok ()) :=
+  C03_create_hidden_middle_own .n0 _ [] .n0 _ .last ['n'] [] (.int 5) 40 trivial rfl (Or.inr rfl) (by decide) pk_n
+    (by simp) (by decide) _ (by decide)
+/-- `d['//a/l[1][-1]/n'] = 5` on `exTreeH2` -/
+example : setItem 40 exTreeH2 ['/', '/', 'a', '/', 'l', '[', '1', ']', '[', '-', '1', ']', '/', 'n'] (.int 5)
+    = (.dict .n0 [(['a'], .dict .n0 [(['l'], .list .n0 [.int 5, .dict .n0 [(['x'], .int 1), (['n'], .int 5)]])])], .ok ()) :=
+  C03_create_hidden_middle_elem .n0 _ [.key ['a'], .key ['l']] 1 .n0 [(['x'], .int 1)] (.neg 1) ['n'] [] (.int 5) 40
+    ⟨pk_a, pk_l, trivial⟩ rfl (Or.inr rfl) (by decide) pk_n (by simp) (by decide) _ (by decide)
+
+/-- **C03 (index on the root: refused).**  On a dict root, `[e]/tail…` and `//[e]/tail…` with `e` denoting anything but
+`0` / `-1` (also `1`: no key holds the root) raise `SyntaxError` and the tree is the tree before the call. -/
+theorem C03_hidden_root_refused (cls : Cls) (kvs : List (Str × Val)) (e : IdxSp) (tail : List Str) (v : Val)
+    (fuel : Nat) (he : e.val ≥ 1 ∨ e.val < -1) (ht : ∀ x ∈ tail, PlainKey x) (hf : fuel ≥ 1) :
+    setItem fuel (.dict cls kvs) (bracket e.text ++ renderPos (tail.map Seg.key)) v
+      = (.dict cls kvs, .error .SyntaxError) ∧
+    setItem fuel (.dict cls kvs) (slash ++ slash ++ bracket e.text ++ renderPos (tail.map Seg.key)) v
+      = (.dict cls kvs, .error .SyntaxError) :=
+  setItem_hidden_root_refuse cls kvs e tail v fuel he ht hf
+
+/-- `d['[0+1]/x'] = 5` and `d['//[last()-1]/x'] = 5` on `exTreeH`: refused, nothing changes -/
+example : setItem 40 exTreeH ['[', '0', '+', '1', ']', '/', 'x'] (.int 5) = (exTreeH, .error .SyntaxError) :=
+  (C03_hidden_root_refused .n0 _ (.plus 0 1) [['x']] (.int 5) 40 (Or.inl (by decide))
+    (by intro m hm; simp at hm; subst hm; exact pk_x) (by decide)).1
+example : setItem 40 exTreeH ['/', '/', '[', 'l', 'a', 's', 't', '(', ')', '-', '1', ']', '/', 'x'] (.int 5)
+    = (exTreeH, .error .SyntaxError) :=
+  (C03_hidden_root_refused .n0 _ (.lastMinus 1) [['x']] (.int 5) 40 (Or.inr (by decide))
+    (by intro m hm; simp at hm; subst hm; exact pk_x) (by decide)).2
+
+/-- **C03 (index as a step of its own, refused).**  `old` at ANY plain position `P` (the value of a key or an element of
+a list) is not a list: `//…P…/[e]/tail…` with `e` denoting `≥ 2` or `< -1` raises `SyntaxError` and the tree is the tree
+before the call — as `name[e]` does (`C03_index_on_single_value`, case 3). -/
+theorem C03_index_own_step_refused (cls : Cls) (kvs : List (Str × Val)) (P : Pos) (old : Val) (e : IdxSp)
+    (tail : List Str) (v : Val) (fuel : Nat)
+    (hp : PlainPos P) (hP : getAt (.dict cls kvs) P = some old) (hs : isList old = false)
+    (he : e.val ≥ 2 ∨ e.val < -1) (ht : ∀ x ∈ tail, PlainKey x) (hf : fuel ≥ 2 * P.length + 1) :
+    setItem fuel (.dict cls kvs) (slash ++ renderPos P ++ slash ++ bracket e.text ++ renderPos (tail.map Seg.key)) v
+      = (.dict cls kvs, .error .SyntaxError) :=
+  setItem_hidden_own_step_refuse cls kvs P old e tail v fuel hp hP hs he ht hf
+
+/-- `d['//a/k/[last()-1]/x'] = 5` on `exTree2`: refused, nothing changes -/
+example : setItem 40 exTree2 ['/', '/', 'a', '/', 'k', '/', '[', 'l', 'a', 's', 't', '(', ')', '-', '1', ']', '/', 'x'] (.int 5)
+    = (exTree2, .error .SyntaxError) :=
+  C03_index_own_step_refused .n0 _ [.key ['a'], .key ['k']] (.str ['s']) (.lastMinus 1) [['x']] (.int 5) 40
+    ⟨pk_a, pk_k, trivial⟩ rfl rfl (Or.inr (by decide)) (by intro m hm; simp at hm; subst hm; exact pk_x) (by decide)
 
 /-- `d['//a/n/m'] = 5` through `C03_create_names` -/
 example : setItem 40 exTree2 ['/', '/', 'a', '/', 'n', '/', 'm'] (.int 5)
